@@ -63,6 +63,35 @@ def _mk(alg, size, encalg, encsize, name, kdf=None):
     return k
 
 
+def foreign_selfsig(k, features):
+    """the PGPy-made key `k` with its user-id self-certification exchanged for one made by the independent signer (bounded.sig_conformance):
+    creation time, key flags, preferred ciphers, issuer fingerprint - and a Features subpacket only if `features` (its octets) is given.
+    Returns (private key, public key), both re-read by PGPy from the rebuilt packet sequences."""
+    from bounded import sig_conformance as sc
+    out = []
+    for blob in (bytes(k), bytes(k.pubkey)):
+        pk = indep.packets(blob)
+        assert [t for t, _, _ in pk] in ([5, 13, 2, 7, 2], [6, 13, 2, 14, 2]), [t for t, _, _ in pk]
+        out.append(pk)
+    sec, pub = out
+    signer = sc.Signer(sec[0][1])
+    pubbody, uidbody = pub[0][1], pub[1][1]
+    fpr = hashlib.sha1(b'\x99' + struct.pack('>H', len(pubbody)) + pubbody).digest()
+    hashed = sc.sp(2, struct.pack('>I', calendar.timegm(T0.utctimetuple()))) + sc.sp(27, b'\x03') + sc.sp(11, bytes([9, 8, 7])) + sc.sp(21, bytes([8, 10])) + \
+        sc.sp(22, bytes([0])) + sc.sp(33, b'\x04' + fpr) + (sc.sp(30, features) if features is not None else b'')
+    selfsig = sc.indep_sign(signer, 0x13, 8, hashed, sc.sp(16, fpr[-8:]), dict(key=pubbody, uid=uidbody))
+    res = []
+    for pk in (sec, pub):
+        raw = pk[0][2] + pk[1][2] + selfsig + pk[3][2] + pk[4][2]
+        key, _ = pgpy.PGPKey.from_blob(raw)
+        res.append(key)
+    prv, pb = res
+    ss = pb.userids[0].selfsig
+    assert ss is not None and bool(pb.verify(pb.userids[0])), 'foreign self-certification does not verify'
+    assert (features is None and 'Features' not in ss._signature.subpackets) or (features is not None and not ss.features), ss.features
+    return prv, pb
+
+
 def secret_numbers(key):
     """independent parse of an (unprotected) PGPy private key: [primary dict, subkey dicts...]"""
     return [indep.seckey(b) for t, b, _ in indep.packets(bytes(key)) if t in (5, 7)]
@@ -86,6 +115,12 @@ def keys():
             k = _mk(*a[:4], name=name, kdf=a[4] if len(a) > 4 else None)
             nums = secret_numbers(k)
             ks[name] = {'name': name, 'key': k, 'pub': k.pubkey, 'primary': nums[0], 'sub': nums[1]}
+        # recipient keys as OTHER tools made them (PGP 5/6, older Bouncy Castle, generators): the self-certification carries no Features
+        # subpacket ('x25519old'), or one that does not set the modification-detection flag ('x25519f0'); PGPy cannot make these itself
+        for name, feat in (('x25519old', None), ('x25519f0', b'\x00')):
+            k, pub = foreign_selfsig(_mk(*spec['x25519'][:4], name=name), feat)
+            nums = secret_numbers(k)
+            ks[name] = {'name': name, 'key': k, 'pub': pub, 'primary': nums[0], 'sub': nums[1]}
         # a key that is never a recipient
         ks['stranger'] = {'name': 'stranger', 'key': _mk(*spec['x25519'], name='stranger')}
         ks['stranger']['pub'] = ks['stranger']['key'].pubkey
@@ -597,6 +632,15 @@ def enumerate_cases(tier, seed):
             add(dir='fwd', cipher=c, body=bodies[n % 3], comp=COMP_NAMES[n % len(COMP_NAMES)], recips=[['key', k]], meta=n % 4, armored=(n % 5 == 0))
             add(dir='rev', cipher=c, body=bodies[(n + 1) % 3], comp=COMP_NAMES[(n + 1) % len(COMP_NAMES)], comp0=False, recips=[['key', k]],
                 hdr=['new', 'new', 'new', 'new'], fname=n % len(REV_FILENAMES), time=1704067200, armored=False)
+    # recipients whose self-certification does not advertise modification detection (keys made by other tools): the message is an integrity
+    # protected one all the same (tag 18 - the grammar clause of run_forward), alone and together with another recipient
+    n = 0
+    for ci, c in enumerate(ciphers):
+        for k in ('x25519old', 'x25519f0'):
+            n += 1
+            add(dir='fwd', cipher=c, body=bodies[n % 3], comp=COMP_NAMES[n % len(COMP_NAMES)], recips=[['key', k]], meta=n % 4, armored=(n % 5 == 0))
+            if ci < 2:
+                add(dir='fwd', cipher=c, body=bodies[(n + 1) % 3], comp=COMP_NAMES[(n + 1) % len(COMP_NAMES)], recips=[['key', 'p256'], ['key', k]], meta=n % 4, armored=False)
     # RSA ciphertext integers with a leading zero octet (the session-key MPI is then shorter than the modulus)
     for ci, c in enumerate(ciphers[:3] if not thorough else ciphers):
         add(dir='rev', cipher=c, body=bodies[ci % 3], comp=COMP_NAMES[ci % len(COMP_NAMES)], comp0=False, recips=[['key', 'rsa']], rsa_short=True,
